@@ -4,9 +4,9 @@ Set Implicit Arguments.
 
 Inductive fsop :=
 | FCopy (u : uval) | FExtend (us : list uval) | FFromIter (us : list uval) | FClear | FReserve (n : N)
-| FClone | FObserve.
+| FClone | FObserve | FSerde.
 
-Record FSM := { fm : MRegion; fs_ic : IC (idx (mr fm)) }.
+Record FSM := { fm : MRegion; fs_ic : IC (idx (mr fm)); fs_ics : ICSer fs_ic }.
 
 Section FSMach.
   Variable F : FSM.
@@ -59,6 +59,12 @@ Section FSMach.
     | FReserve _ :: ops' => UNone :: fs_run x ops'
     | FClone :: ops' => UNone :: fs_run x ops'
     | FObserve :: ops' => fs_observe x :: fs_run x ops'
+    (* serde round trip of the whole stack: its serialised form before and after *)
+    | FSerde :: ops' =>
+        match m_ser M with
+        | Some sr => let u := @fs_ser R S (fs_ics F) sr x in UL [u; u] :: fs_run x ops'
+        | None => UNone :: fs_run x ops'
+        end
     end.
   Definition fs_run0 (ops : list fsop) : list uval := fs_run (fs_default R S) ops.
 End FSMach.
